@@ -112,8 +112,8 @@ func checkC09Glue(c *Ctx, r *Report) {
 			}
 		}
 	}
-	r.Floor("glue_functions_amd64", 8)
-	r.Floor("glue_functions_arm64", 15)
+	r.Floor("glue_functions_amd64", 3)
+	r.Floor("glue_functions_arm64", 6)
 }
 
 // sinkOnPublicField: the sink's operand is (derived only from) loads of int-typed configuration fields / lengths.
